@@ -14,14 +14,17 @@ N == 128
 ToSet(s) == {s[i] : i \in 1 .. Len(s)}
 Thr == {"t1", "t2", "t3", "t4"}
 
-VARIABLES l, held, cand, pcs, bad
-vars == <<l, held, cand, pcs, bad>>
+VARIABLES l, held, cand, pcs, bad,
+          relStarted,   \* ids for which a release has started since they were last acquired
+          trued         \* ... and for which a Clear has reported true
+vars == <<l, held, cand, pcs, bad, relStarted, trued>>
 
 Init == /\ l = 1
         /\ held = [t \in Thr |-> {}]
         /\ cand = [t \in Thr |-> {}]
         /\ pcs = [t \in Thr |-> "idle"]
         /\ bad = "none"
+        /\ relStarted = {} /\ trued = {}
 
 Cur == Log[l]
 Free(k) == ToSet(Log[k].free)
@@ -30,6 +33,7 @@ Reset == /\ Cur.op = "init"
          /\ held' = [t \in Thr |-> {}]
          /\ cand' = [t \in Thr |-> {}]
          /\ pcs' = [t \in Thr |-> "idle"]
+         /\ relStarted' = {} /\ trued' = {}
          /\ bad' = IF Cur.inuse # N - Cardinality(Free(l)) - 1 THEN "CountExact" ELSE "none"
 
 Step ==
@@ -39,14 +43,17 @@ Step ==
          allHeld == UNION {held[u] : u \in Thr}
          \* a thread's ghost: ids free at every instant since its GetStream began
          cand1 == [u \in Thr |-> IF u = t /\ Cur.op = "get" THEN Free(l - 1) \cap fr ELSE cand[u] \cap fr]
-         held1 == IF Cur.op = "clear" THEN [held EXCEPT ![t] = @ \ {Cur.id}] ELSE held
+         \* the hold ends when any release path starts (two paths may race on one id)
+         held1 == IF Cur.op = "clear" THEN [u \in Thr |-> held[u] \ {Cur.id}] ELSE held
+         rel1 == IF Cur.op = "clear" THEN relStarted \cup {Cur.id} ELSE relStarted
          ret == Cur.pc = "idle"
          pcs1 == [pcs EXCEPT ![t] = Cur.pc]
          v == CASE ret /\ Cur.rk = "get_ok" /\ Cur.rv \in UNION {held1[u] : u \in Thr} -> "Unique"
                 [] ret /\ Cur.rk = "get_ok" /\ ~(Cur.rv \in 1 .. N - 1) -> "Range"
                 [] ret /\ Cur.rk = "get_ok" /\ Cur.rv \in fr -> "HeldMarked"
                 [] ret /\ Cur.rk = "get_fail" /\ cand1[t] # {} -> "NoFalseExhaustion"
-                [] ret /\ Cur.rk = "clear_false" -> "ClearReports"
+                [] ret /\ Cur.rk = "clear_true" /\ Cur.rv \in trued -> "OneTrueRelease"
+                [] (\A u \in Thr : pcs1[u] = "idle") /\ ~(rel1 \subseteq (trued \cup (IF ret /\ Cur.rk = "clear_true" THEN {Cur.rv} ELSE {}))) -> "ClearReports"
                 [] 0 \in fr -> "Reserved"
                 [] Cur.inuse < 0 -> "CountNonNeg"
                 [] (\A u \in Thr : pcs1[u] = "idle") /\ Cur.inuse # N - Cardinality(fr) - 1 -> "CountExact"
@@ -55,6 +62,9 @@ Step ==
      IN /\ held' = IF ret /\ Cur.rk = "get_ok" THEN [held1 EXCEPT ![t] = @ \cup {Cur.rv}] ELSE held1
         /\ cand' = cand1
         /\ pcs' = pcs1
+        /\ relStarted' = IF ret /\ Cur.rk = "get_ok" THEN rel1 \ {Cur.rv} ELSE rel1
+        /\ trued' = IF ret /\ Cur.rk = "clear_true" THEN trued \cup {Cur.rv}
+                    ELSE IF ret /\ Cur.rk = "get_ok" THEN trued \ {Cur.rv} ELSE trued
         /\ bad' = v
 
 Next == /\ l <= Len(Log)
